@@ -743,7 +743,9 @@ def _apply(g, op, x, cfg):
     oshape = [(1 if i in axes else s) for i, s in enumerate(shape)
               if keep or i not in axes]
     y = g.new_act(oshape, op, rng=rng)
-    g.node(op, [x, g.const_i(axes, op)], [y], {'keepDims': bool(keep)})
+    # axes may be given negative (counted from the end), as Keras exports them
+    enc = [a - r if d(st.integers(0, 3)) == 0 else a for a in axes]
+    g.node(op, [x, g.const_i(enc, op)], [y], {'keepDims': bool(keep)})
   elif op == 'CONCATENATION':
     axis = d(st.integers(0, r - 1))
     def compatible(s2):
@@ -769,7 +771,8 @@ def _apply(g, op, x, cfg):
     orng = ([min(q[0] for q in rngs), max(q[1] for q in rngs)]
             if all(rngs) else None)
     y = g.new_act(oshape, op, rng=orng)
-    g.node(op, ins, [y], {'axis': axis, 'fusedActivationFunction': 0})
+    g.node(op, ins, [y], {'axis': axis - r if d(st.integers(0, 3)) == 0 else axis,
+                          'fusedActivationFunction': 0})
   elif op == 'STRIDED_SLICE':
     begin, end, strides, oshape = [], [], [], []
     for dim in shape:
@@ -789,7 +792,7 @@ def _apply(g, op, x, cfg):
     axis, k = d(st.sampled_from(axes))
     oshape = list(shape)
     oshape[axis] //= k
-    ax = g.const_i(axis, op)  # scalar
+    ax = g.const_i(axis - r if d(st.integers(0, 3)) == 0 else axis, op)  # scalar
     outs = [g.new_act(oshape, op, rng=rng) for _ in range(k)]
     g.node(op, [ax, x], outs, {'numSplits': k})
   elif op == 'PAD':
